@@ -67,7 +67,7 @@ func genC09(t *rapid.T) c09Case {
 	if rapid.IntRange(0, 2).Draw(t, "prePhase") == 0 {
 		c.Pre = rapid.SampledFrom([]int{200, 2000, 10000}).Draw(t, "pre")
 	}
-	if lp := verifkit.Scale(0, 16); lp > 0 && rapid.IntRange(0, lp-1).Draw(t, "longPre") == 0 {
+	if lp := verifkit.Scale(0, 24); lp > 0 && rapid.IntRange(0, lp-1).Draw(t, "longPre") == 0 {
 		// thorough tier only: a previous life of many seconds of contended reads (more goroutines than
 		// processors), the kind of use in which damage to the read stripes accumulates
 		c.PreSecs = rapid.IntRange(15, 25).Draw(t, "preSecs")
